@@ -42,6 +42,7 @@ def warm():
     trso_mc(wd)
     ic.gen(wd, "A3", "trso")
     ic.gen(wd, "A4o", "trso")
+    tc.rare_problems(wd)
 
 
 def run(tier: str) -> int:
@@ -50,6 +51,9 @@ def run(tier: str) -> int:
     rng = random.Random(500 + seed())
     mcs = [trso_mc(wd)[0]] + ([trso_mc(wd, "A3o", 2)[0]] if tier == "thorough" else [])
     items, gens = tc.problems(wd, tier, rng)
+    rare, rg = tc.rare_items(wd)   # every problem on which the reference recurses again inside a source domain after line 10
+    items += rare
+    gens.append(rg)
     groups = tc.run_y0(wd, items, "c05")
     vs, st, by_id = ic.judge(wd, groups, seeds=(1, 2) if tier == "quick" else (1, 2, 3))
     tc.report(out, vs, by_id, skip={"vocabulary"})
@@ -63,11 +67,14 @@ def run(tier: str) -> int:
         "traces_validated_against_impl": len(vs),
         "estimands_evaluated": len(sem), "with_source_domains": len(with_domain),
         "estimands_using_a_source_distribution": len(uses_domain),
+        "rare_path_problems": sum(len(it["qs"]) for it in rare),
         "distinct_nontrivial": len({(by_id[i][0]["gid"], tuple(by_id[i][1]["x"]), tuple(by_id[i][1]["y"])) for i in uses_domain}),
         "rule": "one record = identify_target_outcomes(G, X, Y, domains) with 0, 1 or 2-3 source domains (Z_k, W_k) drawn from "
                 "TLC's enumeration of all disjoint (Z, W), W non-empty; estimand evaluated by TLC in the multi-domain family "
                 "(fresh mechanisms exactly at TransportNodes) on all assignments and compared with P*(y|do x); 3-node ADMGs "
-                "exhaustively over graphs and queries with a seeded slice of domain configurations, seeded 4-node problems; "
+                "exhaustively over graphs and queries with a seeded slice of domain configurations, seeded 4-node problems, and "
+                "every single-domain problem of the ordered 4-node ADMGs on which the reference (TRSO.tla TRSOSteps) recurses "
+                "again inside a source domain after line 10; "
                 "non-trivial = distinct problem whose estimand mentions a source-domain distribution",
         "samples": [{"id": i, "graph": {k: by_id[i][0][k] for k in "ndb"}, "domains": by_id[i][0]["pops"], "x": by_id[i][1]["x"],
                      "y": by_id[i][1]["y"], "estimand": by_id[i][1]["out"].get("str")} for i in (uses_domain or sem)[:: max(1, len(uses_domain or sem) // 3)][:3]],
